@@ -34,6 +34,9 @@ pub(crate) struct RepSocket {
   ingress_engine: AddressedIngressEngine,
   pending_pipe_senders: ParkingLotMutex<HashMap<usize, PipeMessageSender>>,
   state: ParkingLotMutex<RepState>,
+  /// Serialises recv() / recv_multipart() calls: state check, wait for a request and state
+  /// update of one call happen as a unit with respect to other receive calls.
+  recv_serializer: tokio::sync::Mutex<()>,
   pipe_read_id_to_endpoint_uri: RwLock<HashMap<usize, String>>,
 }
 
@@ -45,6 +48,7 @@ impl RepSocket {
       ingress_engine: AddressedIngressEngine::new(max_conn),
       pending_pipe_senders: ParkingLotMutex::new(HashMap::new()),
       state: ParkingLotMutex::new(RepState::ReadyToReceive),
+      recv_serializer: tokio::sync::Mutex::new(()),
       pipe_read_id_to_endpoint_uri: RwLock::new(HashMap::new()),
     }
   }
@@ -143,6 +147,10 @@ impl ISocket for RepSocket {
     if !self.core.is_running() {
       return Err(ZmqError::InvalidState("Socket is closing".into()));
     }
+    // Of several receive calls racing from different tasks only one may take a request;
+    // the others wait here and then find the socket in ReceivedRequest (so the stored
+    // requester is never overwritten by a second request).
+    let _recv_turn = self.recv_serializer.lock().await;
     {
       let guard = self.state.lock();
       if !matches!(*guard, RepState::ReadyToReceive) {
@@ -229,6 +237,10 @@ impl ISocket for RepSocket {
     if !self.core.is_running() {
       return Err(ZmqError::InvalidState("Socket is closing".into()));
     }
+    // Of several receive calls racing from different tasks only one may take a request;
+    // the others wait here and then find the socket in ReceivedRequest (so the stored
+    // requester is never overwritten by a second request).
+    let _recv_turn = self.recv_serializer.lock().await;
     {
       let guard = self.state.lock();
       if !matches!(*guard, RepState::ReadyToReceive) {
